@@ -457,7 +457,7 @@ func (c17) Exec(c Case) [][][]string {
 	}
 	rows := make([]*c17Row, len(c.Ops))
 	for i, op := range c.Ops {
-		if op[0] == "nap" || op[0] == "reap" { // wall-clock ops of the STATETTL scenario (direct mode)
+		if op[0] == "nap" || op[0] == "reap" || op[0] == "reset" { // wall-clock ops of the STATETTL scenario (direct mode)
 			rows[i] = &c17Row{special: op[0]}
 			continue
 		}
@@ -500,6 +500,11 @@ func c17ExecDirect(cfg *c17Cfg, rows []*c17Row) [][][]string {
 			continue
 		case "reap":
 			gw.VerifReapIdle(time.Now().Add(9000 * time.Millisecond))
+			continue
+		case "reset":
+			// the reaper an hour later: every group has been idle beyond the TTL and is reaped; whatever comes next starts
+			// from nothing (the model starts again from its empty state)
+			gw.VerifReapIdle(time.Now().Add(time.Hour))
 			continue
 		}
 		gw.VerifProcessRow(r.data, time.Unix(0, r.ts))
@@ -831,6 +836,16 @@ func (c17) Gen(rng *rand.Rand, tier string, idx int) Case {
 	if mode == "sql" && rng.Intn(3) == 0 {
 		c.Cfg = append(c.Cfg, []string{"stats", "1"})
 		c.Stat = append(c.Stat, "management-calls-midstream")
+	}
+	if mode == "direct" && len(c.Ops) >= 6 && rng.Intn(8) == 0 {
+		// STATETTL 10 s and the reaper an hour later, in mid-stream: all groups are reaped with rows in them
+		c.Cfg = append(c.Cfg, []string{"ttl", "1"})
+		c.Stat = append(c.Stat, "statettl-all-groups-reaped")
+		cut := 2 + rng.Intn(len(c.Ops)-3)
+		ops := append([][]string(nil), c.Ops[:cut]...)
+		ops = append(ops, []string{"reset"})
+		c.Ops = append(ops, c.Ops[cut:]...)
+		return c
 	}
 	if mode == "direct" && len(c.Ops) >= 6 && rng.Intn(20) == 0 {
 		// STATETTL 10 s with the reaper run by hand: after a real pause of 1.2 s every group receives a row again,
